@@ -104,7 +104,7 @@ def e_step(data, means):
     )
 
 
-def m_step(stats, n_samples):
+def m_step(stats, n_samples, previous_means=None):
     """Computes the cluster centers and average minimum distance.
 
     Parameters
@@ -114,6 +114,9 @@ def m_step(stats, n_samples):
         on each chunk of data.
     n_samples : int
         The total number of samples.
+    previous_means : array-like, shape (n_clusters, n_features)
+        The cluster centers used in the e-step. A cluster that received no
+        sample keeps its previous center.
 
     Returns
     -------
@@ -133,7 +136,11 @@ def m_step(stats, n_samples):
         average_min_distance += average_
     average_min_distance /= n_samples
 
-    means = first_order_statistics / zeroeth_order_statistics[:, None]
+    counts = zeroeth_order_statistics[:, None]
+    means = first_order_statistics / np.maximum(counts, 1)
+    if previous_means is not None:
+        # An empty cluster has no mean: keep its center where it was
+        means = np.where(counts > 0, means, previous_means)
     return means, average_min_distance
 
 
@@ -168,8 +175,10 @@ def reduce_indices_means_vars(stats):
     n_clusters = len(means_sum)
     weights_count = np.bincount(closest_centroid_indices, minlength=n_clusters)
     weights = weights_count / weights_count.sum()
-    means = means_sum / weights_count[:, None]
-    variances = (variances_sum / weights_count[:, None]) - (means**2)
+    # An empty cluster gets a zero weight and a zero variance (not 0/0)
+    counts = np.maximum(weights_count, 1)[:, None]
+    means = means_sum / counts
+    variances = (variances_sum / counts) - (means**2)
 
     return variances, weights
 
@@ -352,12 +361,12 @@ class KMeansMachine(BaseEstimator):
                     dask.delayed(e_step)(xx, means=self.centroids_) for xx in X
                 ]
                 self.centroids_, self.average_min_distance = dask.compute(
-                    dask.delayed(m_step)(stats, n_samples)
+                    dask.delayed(m_step)(stats, n_samples, self.centroids_)
                 )[0]
             else:
                 stats = [e_step(X, means=self.centroids_)]
                 self.centroids_, self.average_min_distance = m_step(
-                    stats, n_samples
+                    stats, n_samples, self.centroids_
                 )
 
             distance = self.average_min_distance
